@@ -152,6 +152,9 @@ def gen_junkwalk_case(rng, i):
         ops.append("pagedamage 16 %d 0 %d" % (j, rng.randrange(0, 3)))
         if rng.random() < 0.8:
             ops.append("pagedamage %d %d 0 %d" % (rng.choice([22, 22, 13]), j, rng.choice([0, 30, 500, 3000])))
+    if rng.random() < 0.6:
+        # a long run of junk late in the file: the seek's byte/position interpolation then starts its probes further back or further on
+        ops.append("pagedamage 13 %d 0 %d" % (rng.randrange(20, 45), rng.choice([20000, 70000, 150000])))
     ops.append("open 0 1 %d" % rng.choice([4096, 100000]))
     for _ in range(40):
         ops.append("%s 0 %d" % (rng.choice(["pcmseek", "pcmseek", "pcmseekpage", "pcmseeklap"]), rng.randrange(0, n + 1)))
